@@ -339,6 +339,27 @@ void Models::do_op(const J &op)
 		}
 		m->do_simple(act[0], args, sp);
 	}
+	else if (act == "upflood") {
+		// an insider that never finishes a packet: well-formed upstream data fragments 0..15 of one sequence number, then the next
+		// sequence number, and so on - as many as the name length allows per query, never with the last-fragment flag
+		int n = (int)op.geti("n", 600), seq = (int)op.geti("seq", 1), per = (int)op.geti("per_seq", 16);
+		size_t bytes = (size_t)op.geti("bytes", 120);
+		Rng hr((uint64_t)op.geti("key"), "upflood");
+		for (int i = 0; i < n; i++) {
+			int frag = i % per; if (i && frag == 0) seq = (seq + 1) & 7;
+			std::string q;
+			q += "0123456789abcdef"[m->userid & 15];
+			q += b32chr(((seq & 7) << 2) | ((frag & 15) >> 2));
+			q += b32chr(((frag & 3) << 3) | (m->in_seq & 7));
+			q += b32chr(((m->in_frag & 15) << 1));
+			m->cmc++;
+			q += "abcdefghijklmnopqrstuvwxyz0123456789"[m->cmc % 36];
+			q += dotify(codec_encode(m->up_codec, hr.bytes(bytes)), 57);
+			std::string name = q; ModelClient *mc = m;
+			w->S.after((uint64_t)i * (uint64_t)op.geti("gap_us", 1500), [mc, name]() { mc->send_name(name); });
+		}
+		w->probes["mc.upflood_fragments"] += n;
+	}
 	else if (act == "rawrunt") {
 		// a raw frame that names this session but carries fewer bytes than its kind needs (header only, half a hash, ...), from a
 		// third party: whatever the server does may depend only on these bytes, not on what the previous datagram left behind
